@@ -697,17 +697,17 @@ pub fn run(driver: &Driver, seed: u64, thorough: bool, replay: Option<&serde_jso
     rep.streams.push(st);
 
     let mut st = Stream::new("c07.tree.random", true);
-    let n = if thorough { 30_000 } else { 1500 };
+    let n = if thorough { 30_000 } else { 1000 };
     run_cases(driver, &mut st, Some(&mut or), seed, (0..n).map(|c| random_case(seed, "c07.tree.random", c)));
     rep.streams.push(st);
 
     let mut st = Stream::new("c07.tree.deep", false);
-    let n = if thorough { 3_000 } else { 200 };
+    let n = if thorough { 3_000 } else { 150 };
     run_cases(driver, &mut st, None, seed, (0..n).map(|c| random_case(seed, "c07.tree.deep", c)));
     rep.streams.push(st);
 
     let mut st = Stream::new("c07.tree.outside", false);
-    let n = if thorough { 10_000 } else { 600 };
+    let n = if thorough { 10_000 } else { 400 };
     run_cases(driver, &mut st, None, seed, (0..n).map(|c| random_case(seed, "c07.tree.outside", c)));
     rep.streams.push(st);
 
